@@ -128,6 +128,17 @@ class Run:
             self.cvc5_recheck(q)
         return q
 
+    def witness(self, name, formulas, kind='smt'):
+        """vacuity guard: the assumptions together with the path that reaches the assertion must be satisfiable;
+        recorded under vacuity_witnesses, not counted as a proof obligation.  Returns True when reachable."""
+        qv = self.decide('%s/vacuity' % name, formulas, kind=kind, note='witness: assumptions and the checked path are satisfiable (must be sat)')
+        self.queries.pop()
+        self.vacuity.append({'harness': name, 'reachable': qv.verdict})
+        if qv.verdict != 'sat':
+            self.inconclusive.append('%s is vacuous (assumptions + path: %s)' % (name, qv.verdict))
+            return False
+        return True
+
     def decide_many(self, common, goals, note='', timeout=None):
         """many small queries sharing the assumptions `common`: one incremental z3 solver, push/pop per goal.
         goals: [(qid, [formulas], note)].  Returns {qid: (verdict, model|None)}."""
